@@ -28,6 +28,12 @@ inductive Op
   | arcInc (h : Nat) | arcDec (h : Nat) | arcPtrEq (h h2 : Nat)
   | trackNew (k : Nat) | trackDrop (k : Nat) | alloc (k : Nat) | dealloc (k : Nat)
   | tls (k : Nat) | tlsTry (k : Nat) | lazy (z : Nat)
+  | tlsNest (k j : Nat)            -- `K_k.with(|_| K_j.with(|v| v.id))`
+  | tlsStat (k : Nat)              -- inits*100 + drops of key `k` in this iteration (harness counters)
+  | tlsObs (k : Nat)               -- what the destructor of key `k` observed (`tlsdtor=2`)
+  | lazyStat (z : Nat)             -- number of live instances of lazy static `z` (inits − drops, whole process)
+  | blockOn (f : Nat) (mode : Nat) -- `future::block_on` of scripted future `f` (0: waker slot, 1: AtomicWaker)
+  | wake (f : Nat) | wakeRef (f : Nat) | dropWaker (f : Nat) | awWake (f : Nat)
   | stop | explore | skip | panic
 deriving DecidableEq, Repr, Inhabited
 
@@ -47,6 +53,10 @@ structure Cfg where
   nCondvars : Nat := 0
   nNotifies : Nat := 0
   nChans : Nat := 0
+  /-- number of scripted futures (each: flag = atomic `f`, a waker slot, an `AtomicWaker`) -/
+  nFutures : Nat := 0
+  /-- what a thread-local destructor does: 0 nothing, 1 `x0.store(10+key)`, 2 `try_with` on the other key -/
+  tlsDtor : Nat := 0
 deriving DecidableEq, Repr, Inhabited
 
 structure Prog where
@@ -165,6 +175,15 @@ def parseOp (toks : List String) : Option Op :=
   | ["tls", k] => do some (.tls (← k.toNat?))
   | ["tlstry", k] => do some (.tlsTry (← k.toNat?))
   | ["lazy", z] => do some (.lazy (← z.toNat?))
+  | ["tlsnest", k, j] => do some (.tlsNest (← k.toNat?) (← j.toNat?))
+  | ["tlsstat", k] => do some (.tlsStat (← k.toNat?))
+  | ["tlsobs", k] => do some (.tlsObs (← k.toNat?))
+  | ["lazystat", z] => do some (.lazyStat (← z.toNat?))
+  | ["blockon", f, m] => do some (.blockOn (← f.toNat?) (← m.toNat?))
+  | ["wake", f] => do some (.wake (← f.toNat?))
+  | ["wakeref", f] => do some (.wakeRef (← f.toNat?))
+  | ["dropwaker", f] => do some (.dropWaker (← f.toNat?))
+  | ["awwake", f] => do some (.awWake (← f.toNat?))
   | ["stop"] => some .stop
   | ["explore"] => some .explore
   | ["skip"] => some .skip
@@ -192,6 +211,8 @@ def parseCfgItem (c : Cfg) (item : String) : Option Cfg :=
   | ["v", v] => do some { c with nCondvars := ← v.toNat? }
   | ["n", v] => do some { c with nNotifies := ← v.toNat? }
   | ["q", v] => do some { c with nChans := ← v.toNat? }
+  | ["f", v] => do some { c with nFutures := ← v.toNat? }
+  | ["tlsdtor", v] => do some { c with tlsDtor := ← v.toNat? }
   | ["ckpt", _] => some c          -- checkpoint file name: used by the harness only
   | ["unwind", _] => some c        -- what the harness drops while a panic unwinds: not modelled
   | _ => none
